@@ -20,11 +20,29 @@
      the valuation induced by the matched terms; C03_canonical: the named semantics is [eval] of the canonical term;
    - C03_congruence_sound: every admissible instance of a pool rule is a valid equation, so everything derivable
      from instances by the congruence [Deriv] (closed under binders and injective renaming) evaluates equally.
-   NOT PROVED: that the e-graph implementation (e-matching on classes, pattern_subst, union, rebuild,
-   redundancy inference) only ever derives such consequences.  That is decided per run: the stream `eg3`
-   exports every class of the final e-graph and every handle, and the machine `c03` (Sem/FpMachine.v)
-   evaluates them with the verified [eval] for p = 5, 3, 2 (tools/compare_eg3.sh). *)
+   PROVED ON THE MODEL OF THE E-GRAPH (EGraph/Model.v, EGraph/Rewrite.v), for rules whose two sides contain no b[x := t],
+   for every history of insertions, unions and rewrite iterations (EGraph/RewriteSound*.v, Sem/FpRewrite*.v):
+   - C03_instance_denoted: in a state satisfying the soundness invariant (RSt E s: the run invariant of C01), if every
+     invocation bound by the substitution denotes a term (sub_den), pattern_subst keeps the invariant and returns an
+     invocation that DENOTES the instance pat_t den p: variables replaced by their denotations, and at a pattern node with a
+     binder the bound slot becomes a binder level of the term that binds exactly the occurrences of that slot name in the
+     terms of the children, the binder levels of substituted terms being shifted (node_t): rules matched under binders do not
+     capture or confuse slots (counterexamples for the two naive formulations: RewriteSoundEx.v);
+   - C03_rewrite_iteration_sound: one apply_rewrites keeps the invariant for a larger set of equations E' that still satisfies
+     any property P that is kept when an instance pair of a rule under a match is added;
+   - C03_history_sound_in_algebra: if the rules (and the asserted unions) are valid in an algebra, any two handles the e-graph
+     reports equal belong to terms of equal value, after any history;
+   - C03_history_sound_fp / C03_pool_rules_covered: the instance for F_p: the hypothesis "rules valid" is discharged for model
+     rules that are valid frules (fp_rule; 23 of the 34 pool rules: no b[x := t], condition none or one slot_free_in).
+   NOT PROVED: the same for right-hand sides b[x := t] (the model implements it by extraction and re-insertion; a value of
+   the substitution that is the private name of a binder of a syntactic node is captured: RewriteSoundEx.psubst_captures; the
+   matcher never produces such values, but that invariant is not proved), for conditions built with and / or / not (the model's
+   rule record has one optional slot_free_in), and that the IMPLEMENTATION behaves like the model: decided per run: the stream
+   `eg3` exports every class of the final e-graph and every handle, and the machine `c03` (Sem/FpMachine.v) evaluates them with
+   the verified [eval] for p = 5, 3, 2 (tools/compare_eg3.sh). *)
 From SE Require Import Sem.Fp Sem.FpFacts Sem.AlgebraFacts.
+From SE Require Import Sem.Algebra EGraph.Model EGraph.ModelMachine EGraph.UnionInvariantFacts EGraph.SoundFacts EGraph.SoundAddExpr EGraph.Mod4Facts
+  EGraph.Rewrite EGraph.MatchDefs EGraph.MatchFacts EGraph.RewriteSound EGraph.RewriteSoundRun Sem.FpRewrite Sem.FpRewriteRun.
 
 Theorem C03_pool_valid : forall p, p <> 0 -> forall r, In r FPPOOL ->
   forall rho, in_range p rho -> fresh_ok r rho -> cond_ok r rho ->
@@ -54,3 +72,44 @@ Theorem C03_congruence_sound : forall p, p <> 0 -> forall E, pool_instances E ->
   forall d s t, Deriv E d s t -> forall env, eval N (interp_fp p) d env s = eval N (interp_fp p) d env t.
 Proof. exact fp_deriv_sound. Qed.
 Print Assumptions C03_congruence_sound.
+
+Theorem C03_instance_denoted : forall E sb den p s a s', RSt E s -> pat_ok (Model.ctr s) p -> sub_den E s sb den ->
+  pattern_subst p sb s = Ok (a, s') -> RSt E s' /\ ext0 s s' /\ hdl E s' a (pat_t den p).
+Proof. exact pattern_subst_denotes. Qed.
+Print Assumptions C03_instance_denoted.
+
+Theorem C03_rewrite_iteration_sound : forall (P : equations -> Prop) (RP : rule -> Prop),
+  (forall E r sb s den, RP r -> P E -> RSt E s -> sub_den E s sb den -> sub_vals (r_lhs r) sb -> sub_bound r sb ->
+     cond_holds (r_cond r) sb = Ok true -> P (E ++ [(pat_t den (r_lhs r), pat_t den (r_rhs r))])) ->
+  forall rs E s b s', P E -> RSt E s -> kids_ok s -> m4 s -> rules_below (Model.ctr s) rs -> Forall RP rs -> Forall rule_nb rs ->
+  apply_rewrites rs s = Ok (b, s') ->
+  exists E', (forall e, In e E -> In e E') /\ P E' /\ RSt E' s' /\ ext0 s s'.
+Proof. exact apply_rewrites_sound. Qed.
+Print Assumptions C03_rewrite_iteration_sound.
+
+Theorem C03_history_sound_in_algebra : forall (D : Type) (interp : nat -> list (sval D) -> D) (RP : rule -> Prop) (UA : rterm -> rterm -> Prop),
+  (forall E r sb s den, RP r -> valid D interp E -> RSt E s -> sub_den E s sb den -> sub_vals (r_lhs r) sb -> sub_bound r sb ->
+     cond_holds (r_cond r) sb = Ok true ->
+     forall env, eval D interp 0 env (pat_t den (r_lhs r)) = eval D interp 0 env (pat_t den (r_rhs r))) ->
+  (forall t1 t2, UA t1 t2 -> forall env, eval D interp 0 env (canon0 t1) = eval D interp 0 env (canon0 t2)) ->
+  forall terms ops hs hrs s, Forall rt_ok terms -> Forall rt_wf terms ->
+  rops_pre RP UA terms ops [] [] empty_egraph ->
+  run_rops terms ops [] [] empty_egraph = Ok (hs, hrs, s) ->
+  forall i j a b ti tj, nth_opt hs i = Some a -> nth_opt hs j = Some b -> nth_opt hrs i = Some ti -> nth_opt hrs j = Some tj ->
+  eg_eq s a b = Ok true -> forall env, eval D interp 0 env (canon0 ti) = eval D interp 0 env (canon0 tj).
+Proof. exact rewriting_history_sound_in_algebra. Qed.
+Print Assumptions C03_history_sound_in_algebra.
+
+Theorem C03_history_sound_fp : forall p, p <> 0 -> forall (UA : rterm -> rterm -> Prop),
+  (forall t1 t2, UA t1 t2 -> forall env, eval_fp p env (canon0 t1) = eval_fp p env (canon0 t2)) ->
+  forall terms ops hs hrs s, Forall rt_ok terms -> Forall rt_wf terms ->
+  rops_pre (fp_rule p) UA terms ops [] [] empty_egraph ->
+  run_rops terms ops [] [] empty_egraph = Ok (hs, hrs, s) ->
+  forall i j a b ti tj, nth_opt hs i = Some a -> nth_opt hs j = Some b -> nth_opt hrs i = Some ti -> nth_opt hrs j = Some tj ->
+  eg_eq s a b = Ok true -> forall env, eval_fp p env (canon0 ti) = eval_fp p env (canon0 tj).
+Proof. exact fp_rewriting_history_sound. Qed.
+Print Assumptions C03_history_sound_fp.
+
+Theorem C03_pool_rules_covered : forall p, p <> 0 -> Forall (fp_rule p) pool_mrules /\ Forall rule_nb pool_mrules.
+Proof. exact pool_rules_fp. Qed.
+Print Assumptions C03_pool_rules_covered.
